@@ -670,9 +670,30 @@ def _outer_method(t):
     return best
 
 
+def _strip_elem(t):
+    """`elem[<what is iterated>]` -> `elem`: which collection the element comes from is plumbing (two loops merged into one over a
+    chain, a list built elsewhere); the test is what is asked ABOUT the element"""
+    out, i = [], 0
+    while True:
+        j = t.find("elem[", i)
+        if j < 0:
+            out.append(t[i:])
+            break
+        out.append(t[i:j] + "elem")
+        d, k = 0, j + 4
+        while k < len(t):
+            d += t[k] == "["
+            d -= t[k] == "]"
+            k += 1
+            if d == 0:
+                break
+        i = k
+    return "".join(out)
+
+
 def _leaf_atoms(t, kind):
     t = re.sub(r"\s*=> [^&|]*$", "", t.strip())
-    t = _strip(t)
+    t = _strip_elem(_strip(t))
     if not t or t in ("always", "<lit>", "True", "False", "'true'", "'false'"):
         return {"always"} if t == "always" else set()
     for seps in ((" & ",), (" || ", " && ")):
